@@ -339,6 +339,19 @@ int EVP_DigestSign(EVP_MD_CTX *ctx, unsigned char *sigret, size_t *siglen, const
 	return 1;
 }
 
+/* digest geometry (documented constants of SHA-2): a model so that code consulting it gets a verdict */
+int EVP_MD_get_block_size(const EVP_MD *md)
+{
+	__CPROVER_assert(md != NULL, "M4: EVP_MD_get_block_size argument");
+	return md == vo_sha256 ? 64 : 128;
+}
+
+int EVP_MD_get_size(const EVP_MD *md)
+{
+	__CPROVER_assert(md != NULL, "M4: EVP_MD_get_size argument");
+	return md == vo_sha256 ? 32 : md == vo_sha384 ? 48 : 64;
+}
+
 unsigned char *HMAC(const EVP_MD *evp_md, const void *key, int key_len, const unsigned char *data, size_t data_len,
 		    unsigned char *md, unsigned int *md_len)
 {
